@@ -25,7 +25,7 @@ PROCESS_BUDGET = 200000
 REACTIONS = True      # generate callbacks that issue World operations re-entrantly (see Run.react_general)
 # operand digit -> arm code: 6/16 no reaction, 7/16 one of the seven actions at the first lifecycle callback,
 # 3/16 a reaction reserved for on_remove (8: deferred delete of the own entity, 11: immediate delete of another)
-ARM_TABLE = [0, 0, 0, 0, 0, 0, 8, 8, 1, 2, 3, 4, 5, 6, 7, 11]
+ARM_TABLE = [0, 0, 0, 0, 15, 15, 8, 8, 1, 2, 3, 4, 5, 6, 7, 11]     # 15: batch reaction during a release
 
 
 class Sentinel(desper.Processor):
@@ -101,7 +101,7 @@ def decode_op(weights):
         if name in ('delete', 'delete_now', 'bad_delete'):
             return [name, d[0]]
         if name == 'arm':
-            return ['arm', d[0], d[1] % 3, d[2], d[3]]
+            return ['arm', d[0], d[1] % 4, d[2], d[3]]      # action 3: the callback raises
         return [name]
     return dec, len(table)
 
@@ -141,6 +141,10 @@ def make_world(case):
 
 class Abort(Exception):
     """An operation (not a query) failed for a reason that is another property's business: stop the case."""
+
+
+class UserCallbackError(Exception):
+    """raised by a lifecycle callback of the program under test (user code failing)"""
 
 
 class Run:
@@ -507,6 +511,11 @@ class Run:
         del comp.__dict__['_react']
         me = args[0] if args else None
         w = self.world
+        if action == 3:
+            # user code failing: the on_remove of a component of an entity being deleted by this frame raises
+            self.flags['reaction:raise'] += 1
+            self.user_error = UserCallbackError('on_remove raised inside process()')
+            raise self.user_error
         # entities whose own removal is in progress further up the call stack are only ever deferred-deleted
         # again (action 0); stripping or immediately deleting an entity in the middle of its own deletion is
         # not a history the property speaks about ("whatever happened to that entity in between")
@@ -560,6 +569,13 @@ class Run:
     def arm_general(self, comps, arm):
         """arm the first handler component of ``comps`` with a one-shot reaction: the first on_add / on_remove it
         receives (outside process / clear / toggle, while dispatching is enabled) issues a World operation."""
+        if arm == 15:
+            for c in comps:
+                if self.maps(c, 'on_add') or self.maps(c, 'on_remove'):
+                    c.__dict__['_react'] = lambda comp, kind, args: self.react_batch(comp, kind, args, len(self.comps))
+                    self.flags['armed_batch'] += 1
+                    return
+            return
         for c in comps:
             only_remove = arm > len(self.ACTIONS)
             if (self.maps(c, 'on_add') and not only_remove) or self.maps(c, 'on_remove'):
@@ -569,6 +585,35 @@ class Run:
                     else self.react_general(comp, kind, args, action, sel))
                 self.flags['armed_general'] += 1
                 return
+
+    def react_batch(self, comp, kind, args, sel):
+        """fires when the armed component's postponed on_add / on_remove is delivered DURING A RELEASE: the callback
+        runs its own batch - disable; attach a new component to another entity; enable.  The callbacks its
+        operation owes come after everything that was already pending (operation order), and the nested enabling
+        delivers all of it."""
+        if kind not in ('on_add', 'on_remove') or not getattr(self, 'releasing', False) or self.batch_done:
+            return                      # stays armed
+        del comp.__dict__['_react']
+        w = self.world
+        cands = [k for k in self.known_ids if self.owns(k) and not self.vanished_pending(k) and w.get_components(k)]
+        if not cands:
+            self.excluded['reaction_without_target'] += 1
+            return
+        self.batch_done = True
+        y = cands[sel % len(cands)]
+        self.flags['reaction_batch_during_release'] += 1
+        saved, self._owed = self._owed, []
+        w.dispatch_enabled = False
+        self.nesting += 1
+        try:
+            self._do_add(y, self.new_comp(sel))
+        finally:
+            self.nesting -= 1
+        group, self._owed = self._owed, saved
+        if group:
+            self.queue.append(group)
+            self.flags['batch_postponed_callbacks_behind_older_ones'] += 1
+        w.dispatch_enabled = True
 
     def react_general(self, comp, kind, args, action, sel):
         if kind not in ('on_add', 'on_remove') or self.no_react or self.in_process or not self.enabled:
@@ -681,6 +726,8 @@ class Run:
                 self.viol('process_does_not_terminate', error=str(exc))
             raise Abort('process budget')
         except Exception as exc:
+            if exc is getattr(self, 'user_error', None):
+                return self.after_user_failure()
             if 'deletion' in self.checks:
                 if not legit_failure:
                     self.viol('process_raised_although_every_deleted_entity_existed', exception=repr(exc),
@@ -729,6 +776,41 @@ class Run:
         if 'deletion' in self.checks:
             self.check_frame(pend, n_pending_rows, group)
 
+    def after_user_failure(self):
+        """process() failed because a callback of the program raised.  Which deletions were applied is not
+        modelled; what C05 still promises is that the world does not keep failing: the following frames complete
+        and no query raises (a processor that queries would otherwise fail on every later frame)."""
+        self.flags['frame_failed_because_a_callback_raised'] += 1
+        if self.bad_pending:
+            raise Abort('callback raised in a frame that also had an unknown id pending')
+        if 'deletion' in self.checks:
+            w = self.world
+            for k in range(3):
+                try:
+                    self.in_process = True
+                    try:
+                        with_budget(PROCESS_BUDGET, w.process, 1)
+                    finally:
+                        self.in_process = False
+                except StepBudgetExceeded as exc:
+                    self.viol('process_does_not_terminate', error=str(exc), after='a callback raised in process()')
+                except Exception as exc:
+                    self.viol('world_keeps_failing_after_a_failed_process', frames_later=k + 1, exception=repr(exc))
+            ids = list(self.known_ids) + NEVER_USED
+            try:
+                for T in self.classes:
+                    list(w.get(T))
+                    for e in ids:
+                        w.has_component(e, T)
+                        w.get_component(e, T)
+                for e in ids:
+                    w.get_components(e)
+                    w.entity_exists(e)
+                list(w.entities)
+            except Exception as exc:
+                self.viol('world_keeps_failing_after_a_failed_process', query=True, exception=repr(exc))
+        raise Abort('a callback raised inside process()')
+
     def op_clear(self):
         if 'lifecycle' in self.checks and not self.enabled:
             # clear() documents that pending events are dropped, C02 that postponed callbacks are not lost:
@@ -770,10 +852,12 @@ class Run:
             return
         try:
             self.no_react = True
+            self.releasing, self.batch_done = True, False
             try:
                 with_budget(PROCESS_BUDGET, setattr, self.world, 'dispatch_enabled', True)
             finally:
                 self.no_react = False
+                self.releasing = False
         except StepBudgetExceeded:
             raise Abort('enable budget (C04)')
         except Exception as exc:
